@@ -496,6 +496,7 @@ fn model_plan(sc: &Scenario) -> ProcPlan {
         parent_costs,
         short_writes: false,
         exit_lag: 0,
+        read_max: 0,
     }
 }
 
